@@ -236,6 +236,23 @@ func Corruptions(p *Program) ([]*Program, []Corruption) {
 			q.Steps[i].Extra = map[string]string{"nosuchkey": "1"}
 			return true
 		})
+		emit("stop-if-without-cancel-handler", "`stop_if` on step "+s.ID+" whose plugin step has no cancellation handler (the lifecycle disables the field)", func(q *Program) bool {
+			var src *Expr
+			if i > 0 && (q.Steps[i-1].Kind == "plugin" || q.Steps[i-1].Kind == "") {
+				src = &Expr{K: "out", Step: q.Steps[i-1].ID, Stage: "outputs", Output: "success"}
+			} else if len(q.Input) > 0 {
+				src = &Expr{K: "in", Field: q.Input[0].Name}
+			} else {
+				return false
+			}
+			q.Steps[i].Op = "op_nc"
+			q.Steps[i].StopIf = ExprVal(src)
+			return true
+		})
+		emit("wrong-closure-timeout-type", "`closure_wait_timeout` of step "+s.ID+" is not a number", func(q *Program) bool {
+			q.Steps[i].ClosureTimeoutMs = LitVal(StrLit("soon"))
+			return true
+		})
 		emit("wrong-enabled-type", "`enabled` of step "+s.ID+" is a list", func(q *Program) bool {
 			q.Steps[i].Enabled = &Val{K: "list", Vals: []*Val{LitVal(BoolLit(true))}}
 			return true
